@@ -54,6 +54,8 @@ def gen(item, rng, tier):
         d = {'begin': cur, 'end': cur + s, 'fill': fill.hex()}
         if rng.random() < 0.2:
             d['rec'] = 1
+        elif rng.random() < 0.12:
+            d['keep'] = 1          # a device that keeps the data objects it is handed (a FIFO, a latch): they are its own from then on
         if rng.random() < 0.08:
             # the controller window and the device behind it need not have the same size
             d['ram_size'] = max(1, s + rng.choice([-3, -1, 1, 4, 16]))
@@ -213,7 +215,7 @@ def run(case):
     r.cpsr.value = 0x1D3
     model = Model(case['devices'])
     rams = []
-    from_list = bool(case.get('via_memory_list')) and not any('alias_of' in d or 'ram_size' in d or d.get('rec') for d in case['devices'])
+    from_list = bool(case.get('via_memory_list')) and not any('alias_of' in d or 'ram_size' in d or d.get('rec') or d.get('keep') for d in case['devices'])
     if from_list:
         # the whole hub built the way ArmV6.__init__ builds it from a configuration file: MemoryControllerHub.from_memory_list(), in the listed order
         arm.mem = type(arm.mem).from_memory_list([{'mem_type': 'RAM', 'beginning': d['begin'], 'end': d['end']} for d in case['devices']])
@@ -237,12 +239,17 @@ def run(case):
         else:
             # a fifth of the devices record the device-level calls they receive (a device need not be a RAM: for a latch or a read-to-clear register
             # a store that first reads, or that is skipped because the bytes already match, is a different access)
-            ram = (M.RecRAM if d.get('rec') else RAM)(d.get('ram_size', d['end'] - d['begin']))
+            ram = (M.RecRAM if d.get('rec') else (M.KeepRAM if d.get('keep') else RAM))(d.get('ram_size', d['end'] - d['begin']))
             arm.mem.memories.append(MemoryController(ram, d['begin'], d['end']))
         if d.get('fill'):
             f = _fill(d)
             ram.memory_array[0:len(f)] = f
         rams.append(ram)
+    for j, (d, ram) in enumerate(zip(case['devices'], rams)):
+        if 'alias_of' not in d and len(ram.memory_array) != d.get('ram_size', d['end'] - d['begin']) and not viol:
+            # a device the library built for a configured bank holds exactly the bytes the bank declares: no hidden storage behind its end
+            viol.append({'oracle': 'hub.model', 'site': 'construction', 'cls': 'device_size_differs_from_bank', 'tick': 0,
+                         'detail': 'bank [%#x,%#x): the device has %d bytes' % (d['begin'], d['end'], len(ram.memory_array))})
     code = RAM(0x100)
     arm.mem.memories.append(MemoryController(code, CODE, CODE + 0x100))
     layout = '%s/%d' % (case['style'], len(case['devices']))
@@ -285,7 +292,13 @@ def run(case):
                              'detail': 'checkpoint %d of the hub (made earlier, never run): device %d changed after op %d' % (k_, j, idx)})
                 return False
         return True
+    keepers = [x for x in rams if hasattr(x, 'kept')]
     for idx, op in enumerate(case['ops']):
+        bad_keep = next(((x, o, was) for x in keepers for o, was in x.kept if bytes(o) != was), None)
+        if bad_keep is not None:
+            viol.append({'oracle': 'hub.model', 'site': 'device', 'cls': 'data_object_changed_after_the_store', 'tick': idx,
+                         'detail': 'a data object handed to a device by an earlier store (%s) reads %s before op %d' % (bad_keep[2].hex(), bytes(bad_keep[1]).hex(), idx)})
+            break
         if snaps and not snaps_intact(idx):
             break
         if op['op'] == 'snap':
